@@ -165,6 +165,9 @@ func comps0(t types.Type) []Comp {
 		var out []Comp
 		for i := 0; i < u.NumFields(); i++ {
 			f := u.Field(i)
+			if isProtoPlumbing(f) {
+				continue
+			}
 			for _, c := range comps(f.Type()) {
 				out = append(out, Comp{"." + f.Name() + c.Suffix, c.Sort, c.Typ})
 			}
@@ -195,12 +198,32 @@ func comps0(t types.Type) []Comp {
 }
 
 // fieldRange returns the component index range [lo,hi) of field i of struct type t.
+// isProtoPlumbing: the unexported bookkeeping fields of generated protobuf structs.
+func isProtoPlumbing(f *types.Var) bool {
+	if f.Exported() || f.Pkg() == nil {
+		return false
+	}
+	switch f.Name() {
+	case "state", "sizeCache", "unknownFields":
+		p := f.Pkg().Path()
+		return strings.Contains(p, "/messages/") || strings.HasPrefix(p, "google.golang.org/protobuf")
+	}
+	return false
+}
+
+func fieldComps(f *types.Var) []Comp {
+	if isProtoPlumbing(f) {
+		return nil
+	}
+	return comps(f.Type())
+}
+
 func fieldRange(st *types.Struct, i int) (int, int) {
 	lo := 0
 	for j := 0; j < i; j++ {
-		lo += len(comps(st.Field(j).Type()))
+		lo += len(fieldComps(st.Field(j)))
 	}
-	return lo, lo + len(comps(st.Field(i).Type()))
+	return lo, lo + len(fieldComps(st.Field(i)))
 }
 
 func elemRange(at *types.Array, i int) (int, int) {
